@@ -258,7 +258,7 @@ pub fn aimed_damage(frame: &FrameInfo, image: &Image, draw: u64) -> (CDamage, Fi
         0..=2 => {
             // len field
             let current = frame.payload_len as u16;
-            let value: u16 = match splitmix(&mut rng) % 7 {
+            let value: u16 = match splitmix(&mut rng) % 8 {
                 0 => current.wrapping_add(1),
                 1 => current.wrapping_sub(1),
                 2 => 0,
@@ -266,6 +266,10 @@ pub fn aimed_damage(frame: &FrameInfo, image: &Image, draw: u64) -> (CDamage, Fi
                 4 => {
                     // land on the end of the block
                     (BLOCK - (frame.off as usize % BLOCK) - FRAME_HEADER) as u16
+                }
+                7 => {
+                    // overshoot the end of the block by 1..=8 bytes
+                    (BLOCK - (frame.off as usize % BLOCK) - FRAME_HEADER) as u16 + 1 + (splitmix(&mut rng) % 8) as u16
                 }
                 5 => (splitmix(&mut rng) % (current as u64 + 1)) as u16,
                 _ => splitmix(&mut rng) as u16,
@@ -405,4 +409,16 @@ pub fn craft_entry_frames(entry: &[u8], mut cursor: usize) -> Vec<u8> {
 pub fn next_wal_name(image: &Image) -> String {
     let max = image.files.keys().filter_map(|name| wal_number(name)).max();
     wal_name(max.map(|number| number + 1).unwrap_or(0))
+}
+
+/// A 24-byte, valid UTF-8 file name derived from "wal-<20 digits>" in which the two bytes at `pos`, `pos + 1` are
+/// replaced by a two-byte character (so that some byte offset is not a character boundary).
+pub fn multibyte_wal_like_name(pos: usize, number: u64) -> String {
+    let template = crate::util::wal_name(number);
+    let pos = pos % 23;
+    let mut out = String::new();
+    out.push_str(&template[..pos]);
+    out.push('\u{e9}');
+    out.push_str(&template[pos + 2..]);
+    out
 }
